@@ -163,3 +163,123 @@ def ob_memo_keys(entry_keys: list[str]):
         return shape_verdict("frames", [f"{k}: {bad[k]}" for k in keys], lambda: probe_memo_twins(keys), count=max(n, 1), replay={"runner": "props.framesobs:replay_memo_twins", "args": {"keys": keys}})
 
     return fn
+
+
+# ---- tool objects carry nothing from one call to the next ----------------------------------------------------------
+TOOLS = {
+    "validate": ("octave_mcp.mcp.validate", "ValidateTool"),
+    "write": ("octave_mcp.mcp.write", "WriteTool"),
+    "eject": ("octave_mcp.mcp.eject", "EjectTool"),
+    "compile_grammar": ("octave_mcp.mcp.compile_grammar", "CompileGrammarTool"),
+}
+
+_HISTORY_DOCS = [
+    ("TEST_HOLOGRAPHIC", '===T===\nMETA:\n  TYPE::TEST_HOLOGRAPHIC\n  VERSION::"1.0"\n---\nTEST_HOLOGRAPHIC:\n  STATUS::active\n  NAME::"x"\n===END===\n'),
+    ("META", '===T===\nMETA:\n  TYPE::"X"\n  VERSION::"1.0"\n  STATUS::draft\n---\nA::"1"\nB::[a,b]\n===END===\n'),
+    (None, "===T===\nA -> B\nK::  v w\n===END===\n"),
+]
+
+
+def probe_tool_history(names: tuple[str, ...]):
+    """the same call on one long-lived tool object after other calls (same content with fix / other flags, other content) vs on
+    a fresh tool object: the envelopes must be equal. -> (differs, text)"""
+    import asyncio
+    import importlib
+    import json
+    import os
+    import tempfile
+
+    def norm(env):
+        def scrub(o):
+            if isinstance(o, dict):
+                return {k: scrub(v) for k, v in o.items() if k not in ("timestamp", "routing_log", "duration_ms")}
+            if isinstance(o, list):
+                return [scrub(x) for x in o]
+            return o
+
+        return json.dumps(scrub(env), sort_keys=True, default=repr)
+
+    def run(tool, kw):
+        try:
+            return norm(asyncio.run(tool.execute(**kw)))
+        except Exception as e:  # noqa: BLE001
+            return f"raised {type(e).__name__}: {e}"
+
+    bad = []
+    for nm in names:
+        mod, cls = TOOLS[nm]
+        T = getattr(importlib.import_module(mod), cls)
+        calls = []
+        if nm == "validate":
+            for schema, text in _HISTORY_DOCS:
+                base = dict(content=text, schema=schema or "META")
+                calls.append((dict(base, fix=True), dict(base)))
+                calls.append((dict(base, profile="LENIENT"), dict(base)))
+                calls.append((dict(base, fix=True), dict(base, diff_only=True)))
+            calls.append((dict(content=_HISTORY_DOCS[0][1], schema="TEST_HOLOGRAPHIC", fix=True), dict(content=_HISTORY_DOCS[1][1], schema="META")))
+        elif nm == "eject":
+            for _, text in _HISTORY_DOCS:
+                calls.append((dict(content=text, schema="META", mode="executive", format="json"), dict(content=text, schema="META", mode="canonical", format="octave")))
+                calls.append((dict(content=text, schema="META", mode="canonical", format="json"), dict(content=text, schema="META", mode="canonical", format="yaml")))
+        elif nm == "compile_grammar":
+            for schema, _ in _HISTORY_DOCS:
+                if schema:
+                    calls.append((dict(schema=schema), dict(schema=schema)))
+        elif nm == "write":
+            with tempfile.TemporaryDirectory(prefix="vf_hist_") as d:
+                for i, (schema, text) in enumerate(_HISTORY_DOCS):
+                    t1 = d + f"/a{i}.oct.md"
+                    t2 = d + f"/b{i}.oct.md"
+                    first = dict(target_path=t1, content=text, lenient=True, corrections_only=True)
+                    second = dict(target_path=t2, content=text, corrections_only=True)
+                    warm = T()
+                    run(warm, first)
+                    got, want = run(warm, second), run(T(), second)
+                    if got != want:
+                        bad.append(f"octave_write {second!r} after {first!r} on the same tool object: {got[:300]} - on a fresh one: {want[:300]}")
+                    if os.path.exists(t1) or os.path.exists(t2):
+                        bad.append("a corrections_only call created a file")
+            continue
+        for first, second in calls:
+            warm = T()
+            run(warm, first)
+            got = run(warm, second)
+            want = run(T(), second)
+            if got != want:
+                bad.append(f"{cls}.execute(**{second!r}) after execute(**{first!r}) on the same tool object: {got[:400]} - on a fresh tool object: {want[:400]}")
+    return bool(bad), "; ".join(bad[:3]) or "call pairs on one tool object vs a fresh one: equal envelopes"
+
+
+def replay_tool_history(names):
+    return probe_tool_history(tuple(names))
+
+
+def ob_tool_stateless(names: tuple[str, ...]):
+    """FRAME: no method of the tool class (or its bases) stores through `self` / `cls` - the server keeps ONE tool object
+    for the life of the process, so an attribute written by a call is call history (the rule of C06.F5, here with a probe).
+    A store found => the call-history probe decides (differs => refuted with the calls; equal => undecided)."""
+    from verif.common import shape_verdict
+
+    def fn(ctx: Ctx) -> Outcome:
+        p = package()
+        problems, n = [], 0
+        for nm in names:
+            mod, cls = TOOLS[nm]
+            ent = f"{mod}:{cls}.execute"
+            if ent not in p.funcs:
+                return Outcome.undecided("frames", f"{ent} not found in the working tree")
+            # inductive invariant "tool objects hold nothing but class constants": no method of the tool class or its bases
+            # (constructor included) has a store or mutating call whose access path is rooted at self / cls / the class name
+            for c in p.mro(p.funcs[ent].cls) if p.funcs[ent].cls else []:
+                for m in c.methods.values():
+                    n += 1
+                    for s in m.stores:
+                        if s.what.startswith(("self.", "cls.", "self[", f"{c.name}.")):
+                            problems.append(f"{m.key}@L{s.lineno}: {s.kind} {s.what} writes the long-lived tool object")
+        if n == 0:
+            return Outcome.undecided("frames", "no tool method found")
+        if problems:
+            return shape_verdict("frames", sorted(set(problems)), lambda: probe_tool_history(names), n, {"runner": "props.framesobs:replay_tool_history", "args": {"names": list(names)}})
+        return Outcome.ok("frames", count=n)
+
+    return fn
